@@ -329,7 +329,9 @@ def check_sched_case(res, case, impl, pairs, model):
 
 def corr_sched(ctx, res, n, oracle_only=False, cases=None):
     cases = cases or [gen_sched_case(ctx.rng, diffusion=(i % 3 == 2)) for i in range(n)]
-    impl = [exec_sched_case(c) for c in cases]
+    done = [(c, vlib.guarded(res, c['family'], c, exec_sched_case, c)) for c in cases]
+    cases = [c for c, (ok, _) in done if ok]            # a case enters the protocol only after all its implementation calls succeeded
+    impl = [v for _, (ok, v) in done if ok]
     model = None
     if ctx.driver_ok and not oracle_only:
         ans = vlib.run_driver(PROP, [sched_line(c) for c in cases])
@@ -567,7 +569,9 @@ def check_world_case(res, case, impl, model):
 
 def corr_world(ctx, res, n, oracle_only=False, cases=None):
     cases = cases or [gen_world_case(ctx.rng, diffusion=(i % 2 == 1)) for i in range(n)]
-    impl = [exec_world_case(c) for c in cases]
+    done = [(c, vlib.guarded(res, c['family'] + (':diffusion' if c['diffusion'] else ':precipitation'), c, exec_world_case, c)) for c in cases]
+    cases = [c for c, (ok, _) in done if ok]
+    impl = [v for _, (ok, v) in done if ok]
     model = None
     if ctx.driver_ok and not oracle_only:
         model = [parse_world_answer(c, a) for c, a in zip(cases, vlib.run_driver(PROP, [world_line(c) for c in cases]))]
@@ -854,8 +858,13 @@ def traced_run(case, args=None):
                     m.solve(sim, solverType=stype)
     except _Stop:
         pass
-    except Exception as e:       # a crash of the real code is reported, not hidden
-        err = repr(e)
+    except Exception as e:       # a crash of the real code is reported (with its site), not hidden; a harness bug is re-raised
+        import traceback
+        tb = traceback.format_exc()
+        if not vlib.in_repo_traceback(tb):
+            raise
+        site = [l.strip() for l in tb.splitlines() if l.strip().startswith('File "%s' % vlib.REPO)]
+        err = (type(e).__name__, repr(e)[:200], site[-1] if site else None)
     finally:
         del therm.getInterfacialComposition
     return {'model': m, 'events': ev, 'lag': lag, 'err': err, 'xeq_of': xeq_of, 'o_gic': o_gic}
@@ -907,7 +916,7 @@ def check_run(ctx, res, case, oracle_only=False):
     res.count('run:' + case['kind']); res.count('solver:' + case['solver']); res.count('dt:' + case['mode']); res.count('via:' + case['via'])
     res.count('steps recorded', len(tm) - 1)
     if out['err']:
-        res.violate('run-raised', 'the run raised ' + out['err'], desc)
+        res.violate('raises:run-%s:%s' % (case['solver'], out['err'][0]), 'the run raised %s at %s' % (out['err'][1], out['err'][2]), desc)
         return out
     res.count('container:' + case.get('container', 'list'))
     args_unchanged(res, case, m._c13_args, 'constructor' if case['via'] == 'ctor' else 'setTemperature')
@@ -1071,7 +1080,8 @@ def check_pair(ctx, res, case):
     ma, mb = ra['model'], rb['model']
     desc = {k: case[k] for k in case if k != 'via'}
     if ra['err'] or rb['err']:
-        res.violate('run-raised', 'paired run raised %s / %s' % (ra['err'], rb['err']), desc); return
+        e = ra['err'] or rb['err']
+        res.violate('raises:paired-run-%s:%s' % (case['solver'], e[0]), 'paired run raised %s at %s' % (e[1], e[2]), desc); return
     args_unchanged(res, desc, shared, 'constructor+setTemperature')
     sa = spec_args(case['spec'])
     scale = max(abs(x) for x in (sa[2] if sa[0] == '2' else [sa[1]]))
@@ -1132,7 +1142,7 @@ def corr(ctx, oracle_only=False, scale=1.0):
               dict(gen_run_case(ctx.rng, 'fast-heat'), solver='euler', mode='free', pbm='std', preload=False, poke=False)]
     cases = forced + cases
     for c in cases:
-        check_run(ctx, res, c, oracle_only)
+        vlib.guarded(res, 'run-' + c['kind'], c, check_run, ctx, res, c, oracle_only)
     # one run with the (slow, ~0.8 s per build) default interfacial-composition method: a slow ramp with a handful of rebuilds
     nq = ctx.n(16, 40)
     sg = ctx.rng.choice([1, -1])
@@ -1140,18 +1150,21 @@ def corr(ctx, oracle_only=False, scale=1.0):
     eq = {'family': 'run', 'kind': 'slow-heat' if sg > 0 else 'slow-cool', 'spec': ('two', [0.0, nq * 0.1 / 3600], [T0, T0 + sg * 0.3 * nq]),
           'via': 'setter', 'solver': 'euler', 'mode': 'fixed', 'n': nq, 'sim': nq * 0.1, 'maxTC': 1.0, 'method': 'equilibrium',
           'pbm': 'std', 'preload': False, 'solves': 1, 'poke': False}
-    check_run(ctx, res, eq, oracle_only)
+    extra = [eq]
     if ctx.thorough:
-        check_run(ctx, res, dict(gen_run_case(ctx.rng, 'jump'), method='equilibrium', pbm='std', preload=False, poke=False), oracle_only)
-        check_run(ctx, res, dict(eq, kind='slow-cool' if sg > 0 else 'slow-heat', spec=('two', eq['spec'][1], [T0, T0 - sg * 0.3 * nq]), solver='rk4', via='ctor'), oracle_only)
+        extra.append(dict(gen_run_case(ctx.rng, 'jump'), method='equilibrium', pbm='std', preload=False, poke=False))
+        extra.append(dict(eq, kind='slow-cool' if sg > 0 else 'slow-heat', spec=('two', eq['spec'][1], [T0, T0 - sg * 0.3 * nq]), solver='rk4', via='ctor'))
+    for c in extra:
+        vlib.guarded(res, 'run-' + c['kind'], c, check_run, ctx, res, c, oracle_only)
     # ---- paired runs
     for k in (['slow-heat', 'hold-ramp-hold', 'zigzag'] if not ctx.thorough else ['slow-heat', 'slow-cool', 'fast-cool', 'hold-ramp-hold', 'jump', 'zigzag', 'iso']):
         c = gen_run_case(ctx.rng, k)
         c['n'] = min(c['n'], 40)
         if c['spec'][0] == 'two' and k != 'slow-cool':
             c['container'] = 'f64'        # one pair of float64 ndarrays shared by the constructor model and the setter model
-        check_pair(ctx, res, c)
+        vlib.guarded(res, 'paired-run-' + k, {x: c[x] for x in c if x != 'via'}, check_pair, ctx, res, c)
     res.sample({'run': {k: cases[0][k] for k in ('kind', 'spec', 'solver', 'mode', 'maxTC', 'n')}})
+    vlib.finish_guard(res)      # harness errors are re-raised only when the run found no violation
     return res
 
 
@@ -1162,9 +1175,19 @@ def search(ctx, broken):
 
 def replay(ctx, entry):
     c = entry['violation']['case']
+    if 'family' not in c and isinstance(c.get('case'), dict):
+        c = c['case']                      # stored by vlib.guarded: {'case': …, 'raised_at': …}
     fam = c.get('family')
     res = Result()
     ctx.driver_ok = False
+    ok, _ = vlib.guarded(res, 'replay', c, _replay_case, ctx, res, c, fam)
+    for v in res.violations:
+        print('  ', v['key'], v['what'], v['observed'], v['required'])
+    vlib.finish_guard(res)
+    return (not res.violations) if fam in ('sched-prec', 'sched-diff', 'sched-world', 'run') else None
+
+
+def _replay_case(ctx, res, c, fam):
     if fam in ('sched-prec', 'sched-diff'):
         def tup(a):
             return tuple(tup(x) if isinstance(x, list) and x and isinstance(x[0], str) else x for x in a)
@@ -1181,8 +1204,4 @@ def replay(ctx, entry):
             check_run(ctx, res, case, oracle_only=True)
         else:
             check_pair(ctx, res, case)
-    else:
-        return None
-    for v in res.violations:
-        print('  ', v['key'], v['what'], v['observed'], v['required'])
-    return not res.violations
+    return None
